@@ -125,7 +125,7 @@ def run(ctx):
                 "(equal, permuted, superset, one missing, wildcard vs base both ways, IDN, IPv4, IPv6 spelled differently, IP missing) x 6 time settings; "
                 "file states {certificate missing, key missing, certificate unparsable, certificate and/or key reached through a symbolic link}; each evaluated through MainEventLoop::new + the real "
                 "schedule_renewal, 64 draws each (the jitter is thread_rng's: the oracle is an interval). A freshly issued 90-day certificate must not be due. After an attempt (every single hook failure / reduced CA fault at every position of a renewal), "
-                "the same process must compute the date from what is on disk at that moment.")
+                "the same process must compute the date from what is on disk at that moment. The wait itself: a certificate file unreadable at the first evaluation and put back at virtual time 30 s / 45 s, due 600 s / 4000 s later: the real event loop must not start the request earlier.")
     reqs = []
     for na in NOT_AFTER:
         for rd in RENEW_DELAY:
@@ -218,6 +218,42 @@ def run(ctx):
 
         st = e1.explore(ctx.pool, base, [dict(e1.REDUCED, hook=["exit:1"])], 1, on_exec)
         flows.account_divergences(res, st)
+    # the wait itself (not only the computed delay): the certificate file cannot be read when the daemon first evaluates it (a deploy
+    # tool is rewriting it) and is back at virtual time 30 s / 45 s; the pair is then due `lead` seconds later. Whatever the retry policy
+    # of the evaluation, the successful evaluation happens after the file is back, so the request may not start before back + lead.
+    waits = []
+    for rd in (RENEW_DELAY[2], RENEW_DELAY[3]):
+        for lead in (600, 4000):
+            for back in (30, 45):
+                q = make_req(("due+%ds" % lead, rd[1] + lead), rd, EARLY[0], files="cert-unparsable")
+                ph = q["phases"][0]
+                cpath = cfg.default_paths(cfg.base_doc(identifiers=[{"dns": "a.example", "challenge": "http-01"}, {"dns": "b.example", "challenge": "http-01"}]))[0]
+                trunc = [x for x in ph["pre"] if x.get("op") == "truncate"][0]
+                cpath = trunc["path"]
+                ph["pre"].insert(ph["pre"].index(trunc), {"op": "copy", "path": cpath, "target": "cert.saved"})
+                del ph["mode"]
+                ph.pop("schedule_draws", None)
+                ph["attempts"] = 1
+                ph["timed"] = [{"at_s": back, "path": "cert.saved", "target": cpath}]
+                q["meta"]["wait"] = [lead, back]
+                waits.append(q)
+    for r, o in zip(waits, e1.run_all(ctx.pool, waits, 120.0)):
+        e1.check_obs(o)
+        res.evaluations += 1
+        res.transitions += len(o.get("cps", []))
+        lead, back = r["meta"]["wait"]
+        ev = o.get("events", [])
+        copied = [e for e in ev if e and e.get("ev") == "timed_copy"]
+        starts = [e for e in ev if e and e.get("ev") == "attempt_start"]
+        if not copied or not copied[0].get("ok") or not starts:
+            raise RuntimeError("C06 wait family: the file was not put back or no attempt started: %s / %s / phase %s" % (copied, starts, str(o.get("phases"))[:300]))
+        t = starts[0]["t"] / 1000.0
+        res.outcomes["wait|lead=%d|back=%d|start=%d" % (lead, back, round(t / 10.0) * 10)] += 1
+        if t < back + lead - 5:
+            res.violation("due-window", "C06|due-window|early|after-unreadable-file|%s" % r["meta"]["rd"][0],
+                          "the request starts no earlier than %d s: the file came back at %d s and the certificate was due %d s after any later evaluation" % (back + lead - 5, back, lead),
+                          "attempt started at %.1f s" % t, replay=r)
+    res.extra["wait_runs"] = len(waits)
     res.extra["after_attempt_runs"] = after_runs
     res.extra["grid"] = {"notAfter": [n[0] for n in NOT_AFTER], "renew_delay": [r[0] for r in RENEW_DELAY], "random_early_renew": [r[0] for r in EARLY],
                          "san_relations": list(SAN_RELATIONS)}
